@@ -339,7 +339,9 @@ class BaseEngine(abc.ABC):
         # setting shots >1 for a TDM program corresponds to further unrolling the program,
         # meaning that we still only need to execute it once
         tdm_options = {"modes": None, "shots": 1 if shots else None, "received_rolled": False}
-        if program.is_unrolled:
+        if not program.is_unrolled:
+            # the engine unrolls the program below and rolls it back after the run; a program
+            # that is handed over (space-)unrolled is left as it is
             tdm_options["received_rolled"] = True
 
         # if a tdm program is input in a rolled state, then unroll it
